@@ -214,6 +214,7 @@ class StmtMixin:
                 new = self.store_item(base, idx, v, st1, node)
                 yield from self.assign(target.value, new, st1, node)
         elif isinstance(target, (ast.Tuple, ast.List)):
+            self._unpack_state = st
             items = self.unpack(v, len(target.elts), node)
             yield from self._assign_seq(target.elts, items, st, node)
         else:
@@ -241,6 +242,10 @@ class StmtMixin:
                 out.append(Val(t, v.terms[i:i + k]))
                 i += k
             return out
+        if isinstance(v, Val) and isinstance(v.ty, TRef):
+            d = dsl.REG.classes.get(v.ty.cls)
+            if d is not None and len(getattr(d, "tuple_fields", [])) == n:
+                return [self.heap_read(self._unpack_state, v, f) for f in d.tuple_fields]
         raise Unsupported("unpacking of %r" % (v,), node)
 
     def set_local(self, st, name, v):
@@ -465,8 +470,11 @@ class StmtMixin:
             if isinstance(it, Raise):
                 yield st1, ("raise", it.exc)
                 continue
+            from .vals import Reversed
             if isinstance(it, PyList):
                 yield from self._unrolled(node, it.items, st1)
+            elif isinstance(it, Reversed):
+                yield from self.loop_with_invariant(node, st1, kind="for", iterable=it.seq, reverse=True)
             else:
                 yield from self.loop_with_invariant(node, st1, kind="for", iterable=it)
 
